@@ -54,6 +54,7 @@ pub fn offset_strategy() -> BoxedStrategy<f64> {
         4 => Just(0.0),
         2 => any::<u16>().prop_map(|i| [PI / 2.0, -PI / 2.0, PI, -PI][pick_idx(i, 4)]),
         4 => -PI..PI,
+        1 => -TWO_PI..TWO_PI,
     ]
     .boxed()
 }
